@@ -8,6 +8,7 @@ size.
 
 # system imports
 #
+import hashlib
 import logging
 from copy import deepcopy
 from email.generator import BytesGenerator, Generator
@@ -24,7 +25,35 @@ SMTP_LONG_LINES = SMTP.clone(max_line_length=None)
 ########################################################################
 ########################################################################
 #
-class ASGenerator(BytesGenerator):
+class StableBoundaryMixin:
+    """
+    A multipart that does not say what its boundary is (no `boundary`
+    parameter, or an empty one) gets one made up when it is rendered. The
+    email package draws it at random, so every FETCH of such a message
+    rendered it differently (and its size, its parts and its partials
+    differed from one command to the next). Derive it from the message
+    instead: the same message always gets the same boundary, whichever of
+    our generators renders it first.
+    """
+
+    def _handle_multipart(self, msg: Message) -> None:
+        if not msg.get_boundary():
+            digest = hashlib.sha256()
+            for part in msg.walk():
+                for name, value in part.raw_items():
+                    digest.update(f"{name}:{value}\n".encode("utf-8", "replace"))
+                if not part.is_multipart():
+                    payload = part.get_payload()
+                    if isinstance(payload, str):
+                        payload = payload.encode("utf-8", "surrogateescape")
+                    if isinstance(payload, bytes):
+                        digest.update(payload)
+            number = str(int(digest.hexdigest()[:15], 16)).zfill(19)
+            msg.set_boundary(("=" * 15) + number + "==")
+        super()._handle_multipart(msg)  # type: ignore[misc]
+
+
+class ASGenerator(StableBoundaryMixin, BytesGenerator):
     """
     Base class for our bytes generator and bytes header generator.
     """
@@ -273,7 +302,7 @@ class ASHeaderGenerator(ASGenerator):
 
 ############################################################################
 #
-class TextGenerator(Generator):
+class TextGenerator(StableBoundaryMixin, Generator):
     def __init__(
         self, outfp: TextIO, *args: Any, headers: bool = False, **kwargs: Any
     ) -> None:
@@ -340,7 +369,7 @@ class TextGenerator(Generator):
 
 ############################################################################
 #
-class HeaderGenerator(Generator):
+class HeaderGenerator(StableBoundaryMixin, Generator):
     """
     A generator that prints out only headers. If 'skip' is true,
     then headers in the list 'headers' are NOT included in the
